@@ -72,6 +72,14 @@ impl RefState {
                 self.srtt_num /= 2;
                 self.shift -= 1;
             }
+            // long histories: cap the denominator at 2^60 (floor; loses < 2^-60 ns per step, the
+            // recurrences are contractions so the total stays below 2^-57 ns)
+            if self.shift > 60 {
+                let d = self.shift - 60;
+                self.var_num >>= d;
+                self.srtt_num >>= d;
+                self.shift = 60;
+            }
         }
     }
     fn srtt_ns(&self) -> u128 {
@@ -186,7 +194,7 @@ fn dfs(w: &mut Walk, alpha: &[Ev], est: RttEstimator, rf: RefState, path: &mut V
 
 pub fn run(ctx: &Ctx) -> Outcome {
     let alpha = alphabet();
-    let depth = ctx.tier.pick(8usize, 10usize);
+    let depth = ctx.tier.pick(9usize, 10usize);
     // split on the first two events for parallelism
     let prefixes: Vec<(usize, usize)> = (0..alpha.len()).flat_map(|a| (0..alpha.len()).map(move |b| (a, b))).collect();
     let walks: Vec<Walk> = prefixes
@@ -261,15 +269,137 @@ pub fn run(ctx: &Ctx) -> Outcome {
         machinery_error("rtte exploration vacuous: RTO never reached both clamps and the interior");
     }
     out.parts.push(part);
+    run_lengths(ctx, &mut out);
     out.rule = "C16: every event sequence up to the depth; distinct = distinct estimator states (phase, rto, srtt, rttvar)".into();
     out.assumptions.push("integer (floor) rounding of the implementation may deviate from exact rational arithmetic by <= 100 ns".into());
     out
+}
+
+/// Long, steady histories (a low variance needs many similar samples; a capped backoff needs many
+/// timeouts): every history of the shape e1^n1 e2^n2 e3^n3, n_i <= N, over a second alphabet.
+fn run_lengths(ctx: &Ctx, out: &mut Outcome) {
+    let alpha: Vec<Ev> = vec![
+        Ev::Sample(300_000_000),
+        Ev::Sample(301_000_000),
+        Ev::Sample(250_000_000),
+        Ev::Sample(1_000_000_000),
+        Ev::Sample(20_000_000),
+        Ev::Sample(190_000_000),
+        Ev::Sample(59_000_000_000),
+        Ev::Timeout,
+    ];
+    let n_max = ctx.tier.pick(24usize, 48usize);
+    let firsts: Vec<(usize, usize)> = (0..alpha.len()).flat_map(|a| (1..=n_max).map(move |n| (a, n))).collect();
+    type Bad = (String, String, Vec<i64>);
+    let results: Vec<(u64, std::collections::HashSet<u64>, std::collections::BTreeSet<u8>, Option<Bad>)> = firsts
+        .par_iter()
+        .map(|&(a, n1)| {
+            let mut transitions = 0u64;
+            let mut distinct = std::collections::HashSet::new();
+            let mut outcomes = std::collections::BTreeSet::new();
+            let code = |e: Ev| match e {
+                Ev::Sample(ns) => ns as i64,
+                Ev::Timeout => -1,
+            };
+            let mut est = RttEstimator::default();
+            let mut rf = RefState::new();
+            let mut hist: Vec<i64> = vec![];
+            for _ in 0..n1 {
+                hist.push(code(alpha[a]));
+                transitions += 1;
+                match step(&mut est, &mut rf, alpha[a]) {
+                    Ok(o) => {
+                        outcomes.insert(o);
+                    }
+                    Err((s, m)) => return (transitions, distinct, outcomes, Some((s, m, hist))),
+                }
+            }
+            for b in 0..alpha.len() {
+                if b == a {
+                    continue;
+                }
+                let (mut e2, mut r2, mut h2) = (est, rf, hist.clone());
+                for _ in 1..=n_max {
+                    h2.push(code(alpha[b]));
+                    transitions += 1;
+                    match step(&mut e2, &mut r2, alpha[b]) {
+                        Ok(o) => {
+                            outcomes.insert(o);
+                        }
+                        Err((s, m)) => return (transitions, distinct, outcomes, Some((s, m, h2))),
+                    }
+                    for c in 0..alpha.len() {
+                        if c == b {
+                            continue;
+                        }
+                        let (mut e3, mut r3, mut h3) = (e2, r2, h2.clone());
+                        for _ in 1..=n_max {
+                            h3.push(code(alpha[c]));
+                            transitions += 1;
+                            match step(&mut e3, &mut r3, alpha[c]) {
+                                Ok(o) => {
+                                    outcomes.insert(o);
+                                    distinct.insert(hash64(&e3.verif_state()));
+                                }
+                                Err((s, m)) => return (transitions, distinct, outcomes, Some((s, m, h3))),
+                            }
+                        }
+                    }
+                }
+            }
+            (transitions, distinct, outcomes, None)
+        })
+        .collect();
+    let mut part = Part::mc("rtte-run-lengths");
+    let mut all: std::collections::HashSet<u64> = Default::default();
+    let mut outcomes = std::collections::BTreeSet::new();
+    let mut best: Option<Bad> = None;
+    for (t, d, o, bad) in results {
+        part.transitions += t;
+        all.extend(d);
+        outcomes.extend(o);
+        if let Some(b) = bad {
+            if best.as_ref().map(|x| b.2.len() < x.2.len()).unwrap_or(true) {
+                best = Some(b);
+            }
+        }
+    }
+    part.states = all.len() as u64;
+    part.distinct_outcomes = outcomes.len() as u64;
+    part.bound = format!("all histories e1^n1 e2^n2 e3^n3 with 1 <= n_i <= {n_max} over {} events (samples 20 ms..59 s around the 200 ms floor, timeout); every prefix checked", alpha.len());
+    part.samples.push(json!({"history": "300 ms x 24, timeout x 9, 250 ms x 3"}));
+    if let Some((sig, msg, hist)) = best {
+        out.violations.push(Violation {
+            property: "C16".into(),
+            monitor: "rtte-reference".into(),
+            signature: sig,
+            detail: format!("{msg}; history of {} events (ns, -1 = timeout) = {:?}", hist.len(), hist),
+            replay: json!({"engine":"exhaust","check":"rtte","explicit": hist}),
+        });
+    }
+    out.parts.push(part);
 }
 
 pub fn replay(r: &Value) -> i32 {
     let alpha = alphabet();
     let mut est = RttEstimator::default();
     let mut rf = RefState::new();
+    if let Some(list) = r["explicit"].as_array() {
+        for x in list {
+            let ev = match x.as_i64().unwrap_or(-1) {
+                -1 => Ev::Timeout,
+                ns => Ev::Sample(ns as u64),
+            };
+            let res = step(&mut est, &mut rf, ev);
+            println!("{ev:?} -> rto={:?} rtt={:?} {:?}", est.retransmission_timeout(), est.roundtrip_time(), res);
+            if let Err((sig, msg)) = res {
+                println!("REPLAY-VIOLATION {sig}: {msg}");
+                return 1;
+            }
+        }
+        println!("REPLAY-OK");
+        return 0;
+    }
     for i in r["events"].as_array().cloned().unwrap_or_default() {
         let ev = alpha[i.as_u64().unwrap_or(0) as usize];
         let res = step(&mut est, &mut rf, ev);
